@@ -6,6 +6,7 @@ EXTENDS Core
 
 CONSTANTS DlOpts, Timeouts, ThirdActs
 
+Loose == FALSE   \* substituted for Core!StrictFailedStart in the cfg
 NoStop == <<<<NOOP, 0>>, <<NOOP, 0>>, <<NOOP, 0>>>>
 Acts == {<<NOOP, 0>>, <<7, 0>>} \cup {<<a, t>> : a \in {WAITA, TERMINATE, KILL}, t \in Timeouts \cup {INF, DEADLINE}}
 Third == IF ThirdActs = "All" THEN Acts ELSE {<<NOOP, 0>>, <<KILL, INF>>}
@@ -29,7 +30,7 @@ Next ==
   \/ ChildDie(1)
 
 Spec == Init /\ [][Next]_vars
-Export == (Len(hist') > Len(hist) /\ hist'[Len(hist')].e = "ret") => PrintT(<<"BEH", ToJson(hist')>>)
+Export == ExportRet
 
 \* C15 on the model: after destroy everything is closed and the handle is gone
 DestroyReleases ==
